@@ -18,9 +18,10 @@ META = {
                    "scanned whole, a match makes every return answer true, no match anywhere makes every return answer false; every "
                    "assertion's payload, constructor layers looked through, consists of exactly its own fields and iter_payload "
                    "chains all three whole lists; hand-written serializers write each field from the value's own data and omit "
-                   "it only when that data is None.",
+                   "it only when that data is None; the covering test the prefix filter is written in (Prefix::covers) equals "
+                   "range inclusion for every pair of lengths of either family (bit-vector evaluation over GF(2), shared with C13).",
     "not_decided": ["JSON round-trip equality (serde-derived; value equality)"],
-    "trusted_base": ["Prefix::covers (C13 not decided)", "derived PartialEq of Asn / KeyIdentifier"],
+    "trusted_base": ["Prefix's constructors clear the host bits (C13 R-WHO / host-bits guards)", "derived PartialEq of Asn / KeyIdentifier"],
 }
 
 SL = "slurm::"
@@ -552,9 +553,11 @@ def run(ctx):
     ctx.rule("R-WHO", "a limit is tested only where the value is built")
     K.check_limit_owners(ctx, f, "rtr::pdu::ProviderAsns::MAX_COUNT",
                          ["repository::aspa::ProviderAsSet::take_from", "rtr::pdu::ProviderAsns::try_from_iter"])
-    from props.C13 import check_covers_family
+    from props.C13 import check_covers_family, check_covers_inclusion
     ctx.rule("R-GRD", "success requires the guard")
     check_covers_family(ctx, f)
+    # "a prefix filter matches an origin iff its prefix covers the origin's": the covering test itself, bit by bit
+    check_covers_inclusion(ctx, f)
 
     # ---- C15.b decision tables ---------------------------------------------------
     for fn, want in SPECS.items():
